@@ -187,6 +187,21 @@ def cases(spec, ctx):
         strand = "." if r < 0.05 else ("+" if r < 0.5 else "-")
         yield {"kind": "random", "blocks": blocks, "strand": strand, "alpha": alpha, "genome": forced_genome(rng, gl, alpha),
                "mode": rng.choice(MODES), "compound": rng.random() < 0.3, "seed": rng.randrange(1 << 30)}
+    # -- scale legs (own stream): long genomes with locations far from the origin, and locations of 9..30 blocks
+    srng = __import__("random").Random(f"C03-scale:{ctx.seed}:{i}")
+    for k in range(sc["NR"] // (10 * n) + 1):
+        alpha = srng.choice(ALPHA_NAMES)
+        gl = srng.choice([700, 3000, 20000])
+        if k % 2 == 0:
+            lo = srng.randrange(gl // 2, gl - 60)
+            blocks = tuple((s0 + lo, e0 + lo) for s0, e0 in G.rand_layout(srng, srng.choice([14, 25, 50]), 5, overlap=srng.random() < 0.2))
+        else:
+            blocks = ()
+            while len(blocks) < 9:
+                blocks = G.rand_layout(srng, min(gl, 400), srng.randint(9, 30), overlap=srng.random() < 0.3)
+        r = srng.random()
+        yield {"kind": "random", "blocks": blocks, "strand": "." if r < 0.05 else ("+" if r < 0.5 else "-"), "alpha": alpha,
+               "genome": forced_genome(srng, gl, alpha), "mode": srng.choice(MODES), "compound": srng.random() < 0.3, "seed": srng.randrange(1 << 30)}
 
 
 # ------------------------------------------------------------------------------------------------------ helpers
